@@ -1048,6 +1048,27 @@ pub fn maybe_stall_after_recv() {
     }
 }
 
+/// Same fault, at a lock acquisition of a worker task (an eighth of the configured rate): the
+/// async flavour has no channel hook, and "slow in the middle of applying an item" matters for
+/// both flavours.
+pub fn maybe_stall_worker_at_lock() {
+    let Some((sim, me)) = ctx() else { return };
+    if in_atomic() {
+        return;
+    }
+    let mut st = sim.lock();
+    let p = st.cfg.stall_after_recv_permille / 8;
+    if p == 0 || st.tasks[me].kind != Kind::Worker || st.tasks[me].stalled_until > st.ctr.steps {
+        return;
+    }
+    if st.choices.choose(2, Some(1000 - p)) == 1 {
+        let k = 3 + st.choices.choose(38, None) as u64;
+        let until = st.ctr.steps + k;
+        st.tasks[me].stalled_until = until;
+        st.ctr.stalls_after_recv += 1;
+    }
+}
+
 /// Faults stop here: no more stalls, no eager clock.
 pub fn faults_off() {
     let Some((sim, _me)) = ctx() else { return };
